@@ -439,7 +439,7 @@ func init() {
 		}
 		n, nfault := 1500, 150
 		if thorough() {
-			n, nfault = 20000, 1500
+			n, nfault = 100000, 6000
 		}
 		var jobs []func()
 		for i := 0; i < n; i++ {
